@@ -10,7 +10,7 @@ import (
 func init() {
 	register(&PropRule{
 		ID:    "C23",
-		Roots: []string{"./control/beaconing"},
+		Roots: []string{"./control/beaconing", "./control/beacon"},
 		Explain: "Decides for DefaultExtender.Extend: the AS entry names the local ISD-AS and, as next, " +
 			"the ISD-AS behind the egress interface; the four argument checks (MTU set, ingress zero " +
 			"exactly on the first hop, not both interfaces zero) precede every success; ONE expiry " +
@@ -58,6 +58,7 @@ func init() {
 }
 
 func runC23(c *Ctx) {
+	c23ConfiguredMaximumKept(c)
 	lastExpiringCovers(c, "E2-signer-covers-segment")
 	eT := "(*control/beaconing.DefaultExtender)"
 	v := c.View(eT + ".Extend")
